@@ -134,7 +134,7 @@ pub fn check_mgu(case: &str) -> Result<(), String> {
             for v in 1..6 {
                 let x = resolve(&T::V(v), &genv, 0);
                 let y = resolve(&T::V(v), &env, 0);
-                if !same_up_to_renaming(&x, &y, &mut m, &mut bk) { return Err(format!("variable {} resolves to {:?}; a most general unifier gives {:?}", v, x, y)); }
+                if !same_up_to_renaming(&x, &y, &mut m, &mut bk) { return Err(format!("variable {} resolves to {:?}; a most general unifier gives {:?} (no renaming of unbound variables consistent with the variables before it makes them equal)", v, x, y)); }
             }
             Ok(())
         }
@@ -167,7 +167,7 @@ pub fn check_sym(case: &str) -> Result<(), String> {
                 let p = resolve(&T::V(v), &e1, 0);
                 let q = resolve(&T::V(v), &e2, 0);
                 if !same_up_to_renaming(&p, &q, &mut m, &mut bk) {
-                    return Err(format!("variable {} resolves to {:?} after A = B but to {:?} after B = A", v, p, q));
+                    return Err(format!("variable {} resolves to {:?} after A = B but to {:?} after B = A (no renaming of unbound variables consistent with the variables before it makes them equal)", v, p, q));
                 }
             }
             Ok(())
